@@ -29,3 +29,9 @@ pub mod wasm;
 // when using rsdd-ocaml
 #[cfg(feature = "ffi")]
 mod ffi;
+
+/// verification hooks (only with `--cfg rsdd_verif`): lets an external harness drive the unique table
+#[cfg(rsdd_verif)]
+pub mod verif_hooks {
+    pub use crate::backing_store::{BackedRobinhoodTable, UniqueTable};
+}
